@@ -31,6 +31,8 @@ func init() {
 			{ID: "R14j", Floor: 4, Doc: "every byte the block reader consumes goes through the audited adapters, which keep the CARv2 payload bound (= R03o)", Run: ruleR03o},
 			{ID: "R14k", Floor: 1, Doc: "SkipNext decodes the section's CID under the bound Next reads it under — the section length: the LimitReader handed to CidFromReader is limited by exactly the decoded section size, not by an unrelated option", Run: ruleR14k},
 			{ID: "R14l", Floor: 1, Doc: "no state update is made on a by-value copy: a library function that copies *p (its receiver or a pointer parameter) into a local, assigns fields of the copy and drops it has updated nothing (a position advanced on a copy of the reader)", Run: ruleR14l},
+			{ID: "R14m", Floor: 1, Doc: "Next and SkipNext hand Options.ZeroLengthSectionAsEOF to the framing routines as it is (not combined with the version or anything else): both end a null-padded payload with io.EOF, CARv1 or CARv2", Run: ruleR14m},
+			{ID: "R14n", Floor: 3, Doc: "Next and SkipNext are bound by the same section-size limit (= R09c)", Run: ruleR09c},
 		},
 	})
 }
